@@ -8,7 +8,7 @@
        input against the recorded output. *)
 From Coq Require Import List Arith ZArith QArith Qabs Qround Bool.
 From TLV Require Import Base.PyList Base.Tensor Corr.Common.
-From TLV Require Import Model.Constraints Base.Ops Model.Prox Model.ConstraintsOps.
+From TLV Require Import Model.Constraints Base.Ops Model.Prox Model.ConstraintsOps Model.ConstraintsStop.
 Import ListNotations.
 
 (* Python values used as parameters: bool / int / float (None inside lists is the `None` of option) *)
@@ -85,6 +85,20 @@ Definition model_trace (n : nat) (specs : list (@zspec pv)) (user_init : bool) (
     constrained_cp PvOther tag_op (zvalidate pv_truthy n (with_names specs)) (fun _ _ => PvRaw) (fun _ _ => PvRaw) (tag_env err_ok)
                    n (if user_init then IUser (user_tags n_init weights_one) else IComputed (repeat PvRaw n))
                    fixed n_outer n_inner PvRaw
+  else Err.
+
+(* the same with the outer stopping rule as written (Model/ConstraintsStop.v): tol = bool(tol_outer), the criterion as passed, and
+   cerr_small = `constraint_error < tol_outer` (the harness chooses tol_outer = 1e-300 / 1e300 so that it is False / True throughout);
+   the two reconstruction-error comparisons are unobservable on tags and irrelevant to the provenance (False) *)
+Definition tag_stop (tol : bool) (c : crit) (cerr_small : bool) : stop_env (M := prov) :=
+  mkStop tol c (fun _ _ _ => cerr_small) (fun _ _ _ => false) (fun _ _ _ => false).
+Definition model_trace_c (n : nat) (specs : list (@zspec pv)) (user_init : bool) (n_init : nat) (weights_one : bool) (err_ok : bool) (fixed : list nat)
+           (n_outer n_inner : nat) (tol : bool) (c : crit) (cerr_small : bool) : res (list prov) :=
+  if Nat.eqb (length specs) 12 then
+    constrained_cp_c PvOther tag_op (zvalidate pv_truthy n (with_names specs)) (fun _ _ => PvRaw) (fun _ _ => PvRaw) (tag_env err_ok)
+                     (tag_stop tol c cerr_small)
+                     n (if user_init then IUser (user_tags n_init weights_one) else IComputed (repeat PvRaw n))
+                     fixed n_outer n_inner PvRaw
   else Err.
 
 (* admm called on its own with n_const = n, order: provenance of the returned primal variable (the start value is PvUser 0) *)
@@ -228,6 +242,8 @@ Inductive case :=
 | CTable (id n : nat) (specs : list (@zspec pv)) (expected : res (list (option (kind * pv))))
 | CTrace (id n : nat) (specs : list (@zspec pv)) (user_init : bool) (n_init : nat) (weights_one : bool) (err_ok : bool) (fixed : list nat)
          (n_outer n_inner : nat) (expected : res (list prov))
+| CTraceC (id n : nat) (specs : list (@zspec pv)) (user_init : bool) (n_init : nat) (weights_one : bool) (err_ok : bool) (fixed : list nat)
+          (n_outer n_inner : nat) (tol : bool) (c : crit) (cerr_small : bool) (expected : res (list prov))
 | CAdmm (id n : nat) (specs : list (@zspec pv)) (order n_iter : nat) (expected : res prov)
 | CProx (id n : nat) (specs : list (@zspec pv)) (order : nat) (expected : res prov)
 | CFeas (id : nat) (k : kind) (p : pv) (rows : list (list Q))
@@ -237,13 +253,15 @@ Definition agree (c : case) : bool :=
   match c with
   | CTable _ n specs expected => res_eqb (list_eqb entry_eqb) (model_table n specs) expected
   | CTrace _ n specs ui nin wone eok fixed no ni expected => res_eqb (list_eqb prov_eqb) (model_trace n specs ui nin wone eok fixed no ni) expected
+  | CTraceC _ n specs ui nin wone eok fixed no ni tol c ce expected =>
+      res_eqb (list_eqb prov_eqb) (model_trace_c n specs ui nin wone eok fixed no ni tol c ce) expected
   | CAdmm _ n specs order ni expected => res_eqb prov_eqb (model_admm n specs order ni) expected
   | CProx _ n specs order expected => res_eqb prov_eqb (model_prox n specs order) expected
   | CFeas _ k p rows => feasb k p rows
   | CCall _ k p aux rows out atol rtol => call_agree k p aux rows out atol rtol
   end.
 Definition ident (c : case) : nat :=
-  match c with CTable i _ _ _ => i | CTrace i _ _ _ _ _ _ _ _ _ _ => i | CAdmm i _ _ _ _ _ => i | CProx i _ _ _ _ => i | CFeas i _ _ _ => i | CCall i _ _ _ _ _ _ _ => i end.
+  match c with CTable i _ _ _ => i | CTrace i _ _ _ _ _ _ _ _ _ _ => i | CTraceC i _ _ _ _ _ _ _ _ _ _ _ _ _ => i | CAdmm i _ _ _ _ _ => i | CProx i _ _ _ _ => i | CFeas i _ _ _ => i | CCall i _ _ _ _ _ _ _ => i end.
 Definition failing := failing_ids agree ident.
 
 (* ------------------------------------------------------------------ (g) static tie: pieces of the model regenerated from the CURRENT
